@@ -335,6 +335,10 @@ class Normalizer:
             st.body = self._block(st.body, cls, depth)
             st.orelse = self._block(st.orelse, cls, depth)
             return [st]
+        if isinstance(st, ast.With) and len(st.items) == 1 and isinstance(st.items[0].context_expr, ast.Call):
+            cm = self._inline_cm(st, cls, depth)
+            if cm is not None:
+                return cm
         if isinstance(st, (ast.With, ast.AsyncWith)):
             for it in st.items:
                 it.context_expr = self._hoist(it.context_expr, pre, cls, depth, st)
@@ -519,6 +523,86 @@ class Normalizer:
         for s in stmts:
             ast.fix_missing_locations(s)
         return stmts, ret
+
+    def _inline_cm(self, st: ast.With, cls, depth) -> Optional[List[ast.stmt]]:
+        """`with self._helper(args) [as v]: BODY` where _helper is a @contextmanager generator of the shape
+        `PRE; yield [x]; POST` or `PRE; try: yield [x] finally: POST`  becomes  PRE; [v = x]; BODY; POST  resp.
+        PRE; [v = x]; try: BODY finally: POST  (an exception in BODY skips POST in the first shape, exactly as it does there)"""
+        if depth <= 0:
+            return None
+        call = st.items[0].context_expr
+        r = self.resolve(call, cls)
+        if r is None:
+            return None
+        qual, fn, callee_cls, bind_self = r
+        if fn.name in self.keep or qual in self.keep or qual in self._stack:
+            return None
+        decs = [(A.dotted(d) or "").split(".")[-1] for d in fn.decorator_list]
+        if "contextmanager" not in decs:
+            return None
+        body = A.strip_docstring(copy.deepcopy(fn.body))
+        ys = [n for n in ast.walk(ast.Module(body=body, type_ignores=[])) if isinstance(n, (ast.Yield, ast.YieldFrom))]
+        if len(ys) != 1 or not isinstance(ys[0], ast.Yield):
+            return None
+
+        def is_yield_stmt(x):
+            return isinstance(x, ast.Expr) and x.value is ys[0]
+        pre = post = None
+        guarded = False
+        for i, x in enumerate(body):
+            if is_yield_stmt(x):
+                pre, post = body[:i], body[i + 1:]
+                break
+            if isinstance(x, ast.Try) and not x.handlers and not x.orelse and len(x.body) == 1 and is_yield_stmt(x.body[0]):
+                pre, post, guarded = body[:i], list(x.finalbody) + body[i + 1:], True
+                if body[i + 1:]:
+                    return None
+                post = list(x.finalbody)
+                break
+        if pre is None or _has_return(pre + post):
+            return None
+        try:
+            self.k += 1
+            k = self.k
+            binds = self._bind(call, fn, bind_self, k)
+        except _CannotInline as e:
+            self.opaque.append(f"{qual}: {e}")
+            return None
+        selfname = fn.args.args[0].arg if (fn.args.args and bind_self is not None) else None
+        whole = ast.Module(body=pre + post, type_ignores=[])
+        locals_ = _stored_names(whole) | {a.arg for a in fn.args.args + fn.args.kwonlyargs}
+        mapping = {n: f"{n}__{k}" for n in locals_}
+        if selfname and bind_self is True:
+            mapping.pop(selfname, None)
+        ren = _Renamer(mapping)
+        yval = ren.visit(copy.deepcopy(ys[0].value)) if ys[0].value is not None else ast.Constant(value=None)
+        pre = [ren.visit(x) for x in pre]
+        post = [ren.visit(x) for x in post]
+        marker = ast.Expr(value=ast.Call(func=ast.Name(id=MARKER, ctx=ast.Load()), args=[ast.Constant(value=qual)], keywords=[]))
+        out: List[ast.stmt] = [ast.copy_location(marker, st)]
+        for pname, val in binds:
+            tgt = mapping.get(pname, pname)
+            if tgt == pname and isinstance(val, ast.Name) and val.id == pname:
+                continue
+            out.append(ast.copy_location(ast.Assign(targets=[ast.Name(id=tgt, ctx=ast.Store())], value=val, lineno=st.lineno), st))
+        self._stack.append(qual)
+        try:
+            out.extend(self._block(pre, callee_cls, depth - 1))
+            if st.items[0].optional_vars is not None:
+                out.append(ast.copy_location(ast.Assign(targets=[st.items[0].optional_vars], value=yval, lineno=st.lineno), st))
+            inner = self._block(st.body, cls, depth)
+            post_n = self._block(post, callee_cls, depth - 1)
+        finally:
+            self._stack.pop()
+        if guarded:
+            out.append(ast.copy_location(ast.Try(body=inner, handlers=[], orelse=[], finalbody=post_n), st))
+        else:
+            out.extend(inner)
+            out.extend(post_n)
+        self.inlined.append(qual)
+        for x in out:
+            ast.fix_missing_locations(x)
+        return out
 
     def _bind(self, call: ast.Call, fn, bind_self, k) -> List[Tuple[str, ast.expr]]:
         a = fn.args
